@@ -8,6 +8,7 @@ import (
 	"net"
 	"net/http"
 	"net/http/httputil"
+	"strings"
 	"sync"
 	"time"
 )
@@ -27,6 +28,9 @@ type rig struct {
 	originAuth   map[string]int // Authorization header values seen by the origin
 	upstreamAuth map[string]int // Proxy-Authorization header values seen by the upstream proxy
 }
+
+// originFailMark: a path segment the scripted origin answers 503 for.
+const originFailMark = "site-out-of-service"
 
 func (g *rig) sawOrigin(v string) bool {
 	g.mu.Lock()
@@ -69,6 +73,12 @@ func newRig() (*rig, error) {
 		}
 		w.Header().Set("Content-Type", "text/plain")
 		w.Header().Set("X-Origin", "c19")
+		if strings.Contains(r.URL.Path, "/"+originFailMark) {
+			// the site is broken for this path (history.go): any number of clients at once
+			w.WriteHeader(http.StatusServiceUnavailable)
+			io.WriteString(w, "origin out of service\n")
+			return
+		}
 		io.WriteString(w, "origin ok\n")
 	})}
 	// no idle connections in the proxy's pool: every exchange of a run meets the fault armed for it
